@@ -65,6 +65,13 @@ Proof.
   apply readonly_mapM. intros r. destruct (Nat.ltb (fst r) 1000); [apply readonly_ret|].
   apply readonly_bind; [apply readonly_of_opt|]. intros c. apply readonly_ret.
 Qed.
+Lemma readonly_check_unsafe_rels fi rels : readonly (check_unsafe_rels fi rels).
+Proof.
+  unfold check_unsafe_rels. destruct (is_nil rels); [apply readonly_ret|].
+  apply readonly_bind; [unfold getF; ro|]. intros f. destruct (f_unsafe f); cbn [whenM]; [|apply readonly_ret].
+  apply readonly_forM. intros r. apply readonly_bind; [apply readonly_get|]. intros s.
+  apply readonly_bind; [apply readonly_guard|]. intros _. apply readonly_guard.
+Qed.
 Lemma readonly_to_relations m rels : readonly (to_relations m rels).
 Proof. unfold to_relations; ro. Qed.
 Lemma readonly_getF fi : readonly (getF fi).
